@@ -255,8 +255,13 @@ func (m *Manager) AddBlocks(blocks []types.Block) error {
 	for _, b := range blocks {
 		bid := b.ID()
 		var ok bool
-		if _, bs, _ := m.store.Block(bid); bs != nil {
+		if _, bs, ok := m.store.Block(bid); bs != nil {
 			// already have this block
+			cs, _ = m.store.State(bid)
+			continue
+		} else if _, pruned := m.store.Header(bid); !ok && pruned {
+			// the block's body was pruned; its header and state are still
+			// stored and must not be replaced by header-only versions
 			cs, _ = m.store.State(bid)
 			continue
 		} else if b.ParentID != cs.Index.ID {
